@@ -496,3 +496,72 @@ fn expr_requires_semi_to_be_stmt(e: &ast::Expr) -> bool {
         _ => true,
     }
 }
+
+#[cfg(feature = "verif-hooks")]
+pub(crate) mod verif_local_braces {
+    use super::*;
+
+    /// What `rewrite_closure` consults on the way to its decision about the braces.
+    pub(crate) struct ClosureProbe<'a> {
+        /// the text in front of the body (`rewrite_closure_fn_decl`)
+        pub(crate) prefix: String,
+        /// `get_inner_expr(body, prefix, context)`
+        pub(crate) inner: &'a ast::Expr,
+        /// `is_block_closure_forced(context, inner)`
+        pub(crate) forced: bool,
+        /// `veto_block(inner)`, `expr_requires_semi_to_be_stmt(left_most_sub_expr(inner))`
+        pub(crate) veto: bool,
+        pub(crate) requires_semi: bool,
+        /// `inner.rewrite_result(context, body_shape)`: what `rewrite_closure_expr` looks at
+        pub(crate) inner_rw: RewriteResult,
+        /// `rewrite_closure_expr(inner, prefix, context, body_shape)`
+        pub(crate) expr: RewriteResult,
+        /// `rewrite_closure_with_block(inner, prefix, context, shape)` as
+        /// `try_rewrite_without_block` calls it (the closure's own shape) and as `rewrite_closure`
+        /// calls it for a body that is not a block (the body's shape)
+        pub(crate) with_block_outer: RewriteResult,
+        pub(crate) with_block_body: RewriteResult,
+        /// `rewrite_closure_block(body, prefix, context, body_shape)` (a block body only)
+        pub(crate) block: Option<RewriteResult>,
+    }
+
+    pub(crate) fn probe<'a>(
+        closure: &'a ast::Closure,
+        span: Span,
+        context: &RewriteContext<'_>,
+        shape: Shape,
+    ) -> Result<ClosureProbe<'a>, RewriteError> {
+        let body = &*closure.body;
+        let (prefix, extra_offset) = rewrite_closure_fn_decl(
+            &closure.binder,
+            closure.constness,
+            closure.capture_clause,
+            &closure.coroutine_kind,
+            closure.movability,
+            &closure.fn_decl,
+            body,
+            span,
+            context,
+            shape,
+        )?;
+        let body_shape = shape.offset_left(extra_offset, span)?;
+        let inner = get_inner_expr(body, &prefix, context);
+        let block = if let ast::ExprKind::Block(..) = body.kind {
+            Some(rewrite_closure_block(body, &prefix, context, body_shape))
+        } else {
+            None
+        };
+        Ok(ClosureProbe {
+            inner,
+            forced: is_block_closure_forced(context, inner),
+            veto: veto_block(inner),
+            requires_semi: expr_requires_semi_to_be_stmt(left_most_sub_expr(inner)),
+            inner_rw: inner.rewrite_result(context, body_shape),
+            expr: rewrite_closure_expr(inner, &prefix, context, body_shape),
+            with_block_outer: rewrite_closure_with_block(inner, &prefix, context, shape),
+            with_block_body: rewrite_closure_with_block(inner, &prefix, context, body_shape),
+            block,
+            prefix,
+        })
+    }
+}
